@@ -22,6 +22,33 @@ CHECKS = {
         design="5 C17"),
 }
 
+CHECKS.update({
+    "C05": dict(engine="ContentLine",
+        technique="TLA+ spec of content-line join/split (Ref RFC 3.1 reading + Impl mirror of parser.py) model-checked over the delimiter alphabet; vectors replayed at Contentline/Event/Todo level; recorded cases validated by TLC trace spec",
+        text="TLC enumerates parameter value x value text over {a ; : , \" \\ % 2 C = CR LF SP} for TEXT and raw value kinds, computes the mirror's outcome (refused / rejected / exact / corrupted) and the Ref verdicts; every case is replayed through Contentline.from_parts/parts and Event/Todo add->to_ical->from_ical with a structural comparison of the tree read back; random Unicode cases and a hostile payload list are judged by TLC (Trace_ContentLine).",
+        note="trusted: Ref reading of RFC 5545 3.1/3.2 (RefSplit), structural alpha in vf/clcommon.py, TLC; bare CR is not a line break; folding exact (C06).", design="5 C05"),
+    "C06": dict(engine="Folding",
+        technique="TLA+ spec of folding (IsFolding relation + foldline mirror) model-checked for all lines over 1-4 octet symbols at small limits and the 75-octet boundary family; vectors replayed into foldline/Contentline; recorded octets validated by TLC trace spec with a UTF-8 decoder",
+        text="TLC proves the foldline mirror satisfies budget / one added space / exact unfolding for every line over {1,2,3,4-octet, SP, CR} up to length 7-8 at limits 6..10 and for the family a^i w a^j at limit 75 (limit 4 is refuted, so the check is not vacuous); vectors are replayed, and long random lines plus every long line of the serialised fixtures are validated on the recorded octets by TLC.",
+        note="trusted: IsFolding/FoldBytesClauses in spec/Folding.tla, TLC; Contentline refuses LF; glue equality 'component = CRLF-join of folded lines'.", design="5 C06"),
+    "C08": dict(engine="ContentLine",
+        technique="TLA+ spec of parameter quoting/splitting (Ref RFC 3.2 + Impl mirror of Parameters/q_split/dquote) model-checked over the value alphabet; vectors replayed at Parameters/Contentline/component level; TLC trace validation of random maps",
+        text="TLC enumerates scalar values up to length 3-4, 2-3 element lists and pairs of mixed-case parameters over {a A , ; : = ' ^ SP \\ % 2 C}, computes round-trip and quoting verdicts (the wire read by the RFC grammar must denote the same map) and the known-finding class; every vector is replayed at three levels and random longer Unicode maps are judged by TLC.",
+        note="trusted: RefSplit/RefParam, SameParams (one-element list = scalar), TLC. Domain: no DQUOTE/control characters.", design="5 C08"),
+    "C14": dict(engine="Alarms",
+        technique="TLA+ spec of alarm time computation (Ref set of admissible sequences incl. wall-clock/absolute zoned arithmetic + Impl mirror) model-checked over component x alarm shapes; vectors replayed on Event/Todo (API and parsed) under both providers; random shapes validated by TLC",
+        text="TLC enumerates 15 component shapes x 153 alarm shapes (+ pairs), proves the mirror's sequence is admissible and the cardinality theorem, and prints per alarm the admissible set; each case is built via the API and via text for VEVENT and VTODO under zoneinfo and pytz and component.alarms.times is compared per alarm; random shapes are validated by Trace_Alarms14.",
+        note="trusted: AlarmTimes/PlusSet in spec/Alarms.tla, gamma/alpha in vf/props/c14.py, TLC. Domain avoids the nonexistent hour.", design="5 C14"),
+    "C15": dict(engine="Alarms",
+        technique="TLA+ decision table (RefActive/RefTrigger) fully enumerated by TLC with the action property NeverActivates; every row replayed on real Event/Todo objects via API, text and the manual Alarms API under both providers; random rows validated by TLC",
+        text="All 3250 rows (trigger kind x tick x alarm ACKNOWLEDGED x component ack x snooze x local tz) are enumerated, monotonicity is an action property over all 'acknowledged later' pairs, and every row is replayed three ways for VEVENT/VTODO under both providers comparing is_active, reported trigger, acknowledged-until and Alarms.active; minute-resolution random rows are validated by Trace_Alarms15.",
+        note="trusted: RefActive/RefTrigger, gamma/alpha in vf/props/c15.py, TLC. January 2024, Europe/Berlin.", design="5 C15"),
+    "C16": dict(engine="StartEnd",
+        technique="TLA+ state machine of DTSTART/DTEND|DUE/DURATION (RefStep, RefAllowed, Impl mirror) fully explored by TLC; every transition, every parsed state and graph walks replayed on Event/Todo; random histories validated by TLC trace spec",
+        text="The slot state machine's full reachable graph (from every slot combination, since parsing can produce any) is explored with InvExclusive (setter-only histories) and InvObs (observables admissible + identities); each transition and each state (rendered to text and parsed) is replayed on Event and Todo, walks follow the graph on one live object, and random mutator sequences with arbitrary times are stepped through the spec by TLC.",
+        note="trusted: RefAllowed reading (forbidden states may answer either documented error), gamma/alpha in vf/props/c16.py, TLC. Whole hours, fixed +1h zone.", design="5 C16"),
+})
+
 NOT_YET = "not yet built in this round (specification and binding under construction; see DESIGN.md section 10)"
 
 
